@@ -579,7 +579,7 @@ func checkCmd(p *propCfg, tier, repo string, writeEvidence bool) int {
 	nW := workersEnv()
 	dir := filepath.Join(scratch, p.ID, "out")
 	var wrapCh chan map[string]any
-	if p.ID == "C01" && tier == "thorough" {
+	if (p.ID == "C01" || p.ID == "C11") && tier == "thorough" {
 		wrapCh = make(chan map[string]any, 1)
 		go func() { wrapCh <- realWrap(p, dir) }()
 	}
@@ -729,10 +729,11 @@ func checkCmd(p *propCfg, tier, repo string, writeEvidence bool) int {
 		wr := <-wrapCh
 		agg.extra = map[string]any{"counter_wrap_real_2^32": wr}
 		if f, _ := wr["failure"].(string); f != "" {
-			path := filepath.Join(rdir, "C01-wrap_sequential.json")
+			path := filepath.Join(rdir, p.ID+"-wrap_sequential.json")
 			writeJSON(path, wr)
-			fmt.Printf("VIOLATION property=%s replay=%s\n  class=wrap_sequential site=ringz.(*SyncRing) detail=%s\n", p.ID, path, f)
-			reported = append(reported, map[string]any{"class": "wrap_sequential", "site": "ringz.(*SyncRing)", "detail": f, "replay": path})
+			wsite := map[string]string{"C01": "ringz.(*SyncRing)", "C11": "listz.(*SyncList)"}[p.ID]
+			fmt.Printf("VIOLATION property=%s replay=%s\n  class=wrap_sequential site=%s detail=%s\n", p.ID, path, wsite, f)
+			reported = append(reported, map[string]any{"class": "wrap_sequential", "site": wsite, "detail": f, "replay": path})
 			if exit == 0 {
 				exit = 1
 			}
@@ -755,7 +756,7 @@ func checkCmd(p *propCfg, tier, repo string, writeEvidence bool) int {
 func realWrap(p *propCfg, dir string) map[string]any {
 	har := filepath.Join(scratch, p.ID, "harness")
 	bin := filepath.Join(scratch, p.ID, "worker_norace")
-	if out, err := run(har, goEnv(), "go", "build", "-o", bin, "./cmd/c01"); err != nil {
+	if out, err := run(har, goEnv(), "go", "build", "-o", bin, "./cmd/"+strings.ToLower(p.ID)); err != nil {
 		return map[string]any{"error": "build: " + err.Error() + " " + tail(out, 500)}
 	}
 	os.MkdirAll(dir, 0o755)
